@@ -8,11 +8,11 @@ import numpy as np
 from ..common import q2s, run_driver, seed_rng
 from ..qnum import Q, installed
 from ..sllib import TIME_LATTICE, Fixture, random_space_intervals, result_str
-from ..slchecks import RealOps, describe, random_real_mesh
+from ..slchecks import RealOps, describe, random_real_mesh, with_generated
 from .. import numref
 from .C04 import translate  # noqa: F401
 
-PROP_MODS = ['Stbem.Props.C07']
+PROP_MODS = ['Stbem.Props.C07', 'Stbem.Props.PanelsTie']
 RULE = ('correspondence (exact): the real evaluate (in-element split with mirrored log rules, seam-aware choice of the '
         'graded rule, pre-evaluated curve points of _init_elems), evaluate_exact and the evaluation plan on Q numbers '
         'against the Lean model over all point classes (inside, at an end point, within 1e-10 relative, neighbouring '
@@ -23,6 +23,9 @@ RULE = ('correspondence (exact): the real evaluate (in-element split with mirror
 TRUSTED = [
     'Lean 4.33 kernel; axioms propext, Classical.choice, Quot.sound only',
     'translate/formulas.py + exact correspondence (Q numbers, stand-ins)',
+    'control flow of __integrate / bilform / evaluate / MP_SL_matrix_col regenerated from the source on every run '
+    '(translate/panels.py -> lean/Stbem/Gen/Panels.lean) and proved equal to the hand-written model for all inputs '
+    '(Props/PanelsTie.lean); the translator is validated on every run by exact execution of the real methods',
     'the 1e-8 / 5e-4 / 2e-3 accuracy zones are claims about a fixed rule on a non-polynomial integrand: search only (partial)',
 ]
 ASSUMPTIONS = ['exact arithmetic in the theorems']
@@ -45,6 +48,8 @@ def correspond(res, tier):
                 pts = [xa[0], xa[1], (xa[0] + xa[1]) / 2, xa[0] + h / 8, xa[1] - h / 1024, F(0), fx.length,
                        xa[0] * (1 + F(1, 10**11)), xa[1] * (1 - F(1, 10**11)), xa[1] + h / 3, xa[0] - h / 5,
                        fx.length - F(1, 7), F(1, 9), fx.length / 2]
+                if fx.closed:   # the point opposite to the element: both seam-aware distances are EQUAL (tie of `d_a <= d_b`)
+                    pts.append(((xa[0] + xa[1]) / 2 + fx.length / 2) % fx.length)
                 for xh in pts:
                     if not (0 <= xh <= fx.length):
                         continue
@@ -64,6 +69,7 @@ def correspond(res, tier):
                             v = fx.SL.evaluate_exact(e, Q(t), Q(xh))
                             lines.append('sl evalx %s %s %s' % (e.encode(), q2s(t), q2s(xh)))
                             expect.append('none' if v is None else result_str(v))
+        with_generated(lines, expect)   # `sl geneval`: the evaluate regenerated from the source (Gen/Panels.lean)
         out = run_driver(lines)
         for line, want, got in zip(lines, expect, out):
             if want is None:
@@ -75,7 +81,8 @@ def correspond(res, tier):
             if want != got:
                 res.broken_obligation('correspondence C07: model and code differ', 'line: %s\npython %s\nmodel %s' % (line, want[:300], got[:300]))
                 return
-    res.sample(dict(point_classes=['end points', 'inside', 'within 1e-11 relative', 'neighbouring side', 'seam', '0 and L']))
+    res.sample(dict(point_classes=['end points', 'inside', 'within 1e-11 relative', 'neighbouring side', 'seam', '0 and L',
+                                   'equidistant from both ends (opposite point of a closed curve)']))
 
 
 def search(res, tier, boost=False):
